@@ -35,6 +35,9 @@ def parseNetCfg? (s : String) : Option NetCfg :=
              children := ← parsePlus? parseNat? ch, mode := ← parseCtlMode? m, parent := ← parseOptNat? p }
   | _ => none
 
+def parseBits? (s : String) : Option (List Bool) :=
+  if s == "-" then some [] else s.toList.mapM (fun c => if c == '1' then some true else if c == '0' then some false else none)
+
 def bits (l : List Bool) : String := String.mk (l.map (fun b => if b then '1' else '0'))
 
 def showSt (C : Cfg) (s : St) : String :=
@@ -54,6 +57,9 @@ def opsCtl (st : Option (Cfg × St)) (args : List String) : Option (Option (Cfg 
       some (some (C, s'), showSt C s')
   | ["step", dt], some (C, s) => do
       let s' := step C s (← parseRat? dt)
+      some (some (C, s'), showSt C s')
+  | ["astep", dt, rs, ri], some (C, s) => do
+      let s' := stepA C s (← parseRat? dt) { sensor := ← parseBits? rs, iswitch := ← parseBits? ri }
       some (some (C, s'), showSt C s')
   | _, _ => none
 
